@@ -17,6 +17,7 @@ import (
 	"context"
 	"fmt"
 	"io"
+	"sort"
 	"strings"
 	"time"
 
@@ -46,6 +47,7 @@ func dsDescribeCmd(a Args) {
 		dsScopeGroupOf(s, d, t)
 	}
 	dsPluginGroupOf(s, d, dsFixedPlugin())
+	dsPluginGroupOf(s, d, dsFixedAliasPlugin())
 	for i := 0; i < n; i++ {
 		switch {
 		case i%7 == 6:
@@ -402,6 +404,20 @@ func dsFixedPlugin() *dsPlugin {
 	}}
 }
 
+// dsFixedAliasPlugin: step keys that differ from the step IDs - an alias of a step, and two
+// generations ("copy", "copy@v1") that share the ID "copy" and have different inputs.
+func dsFixedAliasPlugin() *dsPlugin {
+	sc := func(id string, prop string, t *dsTy) *dsTy {
+		return &dsTy{T: "scope", Root: id, Objs: []dsNamedObj{{id, &dsTy{T: "obj", ID: id, Props: []dsNamedProp{
+			{prop, &dsProp{Ty: t, Required: true}}, {"note", &dsProp{Ty: &dsTy{T: "str"}}}}}}}}
+	}
+	out := []dsKeyed[*dsOutput]{{"success", &dsOutput{Schema: sc("Out", "done", &dsTy{T: "bool"})}}}
+	copy0 := &dsStep{ID: "copy", Input: sc("In", "src", &dsTy{T: "str", Min: hx.IntP(1)}), Outputs: out}
+	copy1 := &dsStep{ID: "copy", Input: sc("InV1", "count", &dsTy{T: "int", Min: hx.IntP(0)}), Outputs: out}
+	move := &dsStep{ID: "move", Input: sc("InMove", "dst", &dsTy{T: "str"}), Outputs: out}
+	return &dsPlugin{Steps: []dsKeyed[*dsStep]{{"copy", copy0}, {"copy@v1", copy1}, {"move", move}, {"mv", move}}}
+}
+
 // dsHelloViaServer serves the callable schema with the real ATP server and reads the schema with the
 // real client.
 func dsHelloViaServer(cs *schema.CallableSchema) (*schema.SchemaSchema, error) {
@@ -472,6 +488,27 @@ func dsPluginGroupOf(s *dsSink, d *dsGen, p *dsPlugin) {
 	// the same plugin as a plugin author declares it: callable steps, described by the callable schema
 	var callable *schema.CallableSchema
 	var callableDesc any
+	if p.aliased() {
+		s.count("plugin:aliased-step-keys")
+	}
+	cres := hx.Result{R: "skipped"}
+	if !p.aliased() {
+		cres = dsCallableDescribe(s, p, first, id0, &callable, &callableDesc)
+	}
+	_ = cres
+	legs := append([]dsLeg{}, dsLegs...)
+	legs = append(legs, dsLeg{"hello", dsCBOR})
+	if callableDesc != nil {
+		legs = append(legs, dsLeg{"callable", func(any) (any, error) { return callableDesc, nil }},
+			dsLeg{"server", func(any) (any, error) { return dsCBOR(callableDesc) }})
+	}
+	dsPluginLegs(s, d, p, orig, desc, first, id0, callable, legs)
+}
+
+// dsCallableDescribe: the same plugin as a callable schema must describe itself identically.
+func dsCallableDescribe(s *dsSink, p *dsPlugin, first string, id0 int, callableOut **schema.CallableSchema, descOut *any) hx.Result {
+	var callable *schema.CallableSchema
+	var callableDesc any
 	cres := hx.Guard(func() hx.Result {
 		callable = p.buildCallable()
 		v, err := callable.SelfSerialize()
@@ -488,12 +525,11 @@ func dsPluginGroupOf(s *dsSink, d *dsGen, p *dsPlugin) {
 		s.finding(dsFinding{Prop: "C09", What: "the callable schema and the plain schema of the same plugin describe themselves differently", Cases: []int{id0, idc}, Schema: p,
 			Detail: []string{first, hx.Canon(cres.V)}})
 	}
-	legs := append([]dsLeg{}, dsLegs...)
-	legs = append(legs, dsLeg{"hello", dsCBOR})
-	if callableDesc != nil {
-		legs = append(legs, dsLeg{"callable", func(any) (any, error) { return callableDesc, nil }},
-			dsLeg{"server", func(any) (any, error) { return dsCBOR(callableDesc) }})
-	}
+	*callableOut, *descOut = callable, callableDesc
+	return cres
+}
+
+func dsPluginLegs(s *dsSink, d *dsGen, p *dsPlugin, orig *schema.SchemaSchema, desc any, first string, id0 int, callable *schema.CallableSchema, legs []dsLeg) {
 	for _, leg := range legs {
 		w, err := leg.conv(desc)
 		if err != nil {
@@ -537,16 +573,37 @@ func dsPluginGroupOf(s *dsSink, d *dsGen, p *dsPlugin) {
 		if second != want {
 			s.finding(dsFinding{Prop: "C09", What: "plugin schema: describe, rebuild (" + leg.name + "), describe is not a fixed point", Cases: []int{id0, id1}, Schema: p, Detail: []string{want, second}})
 		}
-		// behaviour of every data scope, original vs rebuilt
+		// the rebuilt schema has the steps of the original under the same KEYS (a key need not be the ID)
+		if len(rebuilt.StepsValue) != len(p.Steps) {
+			var keys []string
+			for k := range rebuilt.StepsValue {
+				keys = append(keys, k)
+			}
+			sort.Strings(keys)
+			s.finding(dsFinding{Prop: "C09", What: fmt.Sprintf("the schema rebuilt from the description (%s) has %d steps %v, the original %d", leg.name, len(keys), keys, len(p.Steps)),
+				Cases: []int{id0, id1}, Schema: p})
+		}
+		// behaviour of every data scope, original vs rebuilt, step by step (by key)
 		for _, st := range p.Steps {
 			os, rs := orig.StepsValue[st.Key], rebuilt.StepsValue[st.Key]
 			if rs == nil {
-				s.finding(dsFinding{Prop: "C09", What: "rebuilt plugin schema lost step " + st.Key, Cases: []int{id1}, Schema: p})
+				s.finding(dsFinding{Prop: "C09", What: "the schema rebuilt from the description (" + leg.name + ") lost step " + st.Key, Cases: []int{id1}, Schema: p})
 				continue
+			}
+			if rs.ID() != st.V.ID {
+				s.finding(dsFinding{Prop: "C09", What: fmt.Sprintf("the step under key %s has ID %s in the rebuilt schema (%s), %s in the original", st.Key, rs.ID(), leg.name, st.V.ID), Cases: []int{id1}, Schema: p})
 			}
 			dsBehaviour(s, d, st.V.Input, os.InputValue, rs.InputValue, leg.name+":input", true)
 			for _, o := range st.V.Outputs {
-				dsBehaviour(s, d, o.V.Schema, os.OutputsValue[o.Key].SchemaValue, rs.OutputsValue[o.Key].SchemaValue, leg.name+":output", true)
+				ro := rs.OutputsValue[o.Key]
+				if ro == nil || ro.SchemaValue == nil {
+					s.finding(dsFinding{Prop: "C09", What: "the schema rebuilt from the description (" + leg.name + ") lost output " + o.Key + " of step " + st.Key, Cases: []int{id1}, Schema: p})
+					continue
+				}
+				dsBehaviour(s, d, o.V.Schema, os.OutputsValue[o.Key].SchemaValue, ro.SchemaValue, leg.name+":output", true)
+			}
+			if len(rs.OutputsValue) != len(st.V.Outputs) {
+				s.finding(dsFinding{Prop: "C09", What: fmt.Sprintf("step %s has %d outputs in the rebuilt schema (%s), %d in the original", st.Key, len(rs.OutputsValue), leg.name, len(st.V.Outputs)), Cases: []int{id1}, Schema: p})
 			}
 			// every signal handler and every signal emitter of the ORIGINAL step must be there, with a
 			// data schema that behaves like the original's
